@@ -40,6 +40,7 @@ type FaultAction struct {
 var ErrInjected = errors.New("simfs: injected I/O failure")
 
 type file struct {
+	cap          int // > 0: the file cannot grow beyond this size (Disk.CapFiles)
 	data         []byte
 	dur          []byte // content as of the last successful Sync (nil: never synced)
 	synced       bool
@@ -71,6 +72,11 @@ type Disk struct {
 	nextHandle  int
 	OpenHandles map[int]string // handle -> name (open, not yet closed)
 	Record      bool
+
+	// CapFiles: storage whose files have the size they were created with and cannot grow: a write that crosses the end
+	// lands the bytes that fit and returns the short count with io.EOF (the contract of io.WriterAt on a fixed-size
+	// object, e.g. a memory-mapped or block-backed file)
+	CapFiles bool
 
 	// ReadHook, if set, is called (without the lock held) at the start of every ReadAt; used to park a reader that
 	// already holds a reference to a WAL state.
@@ -161,6 +167,9 @@ func (d *Disk) Create(dir, name string, size uint64) (types.WritableFile, error)
 	}
 	d.mu.Lock()
 	f := &file{data: make([]byte, size)}
+	if d.CapFiles {
+		f.cap = int(size)
+	}
 	d.files[name] = f
 	h := d.newHandle(name, f, true, true)
 	ev.Handle = h.id
@@ -278,6 +287,14 @@ func (h *handle) WriteAt(p []byte, off int64) (int, error) {
 	}
 	d.mu.Lock()
 	landed := len(p)
+	short := false
+	if h.f.cap > 0 && int(off)+landed > h.f.cap {
+		landed = h.f.cap - int(off)
+		if landed < 0 {
+			landed = 0
+		}
+		short = true
+	}
 	if fa != nil {
 		landed = fa.Landed
 		if landed > len(p) {
@@ -298,6 +315,9 @@ func (h *handle) WriteAt(p []byte, off int64) (int, error) {
 	}
 	if fa != nil {
 		return landed, ErrInjected
+	}
+	if short {
+		return landed, io.EOF
 	}
 	return len(p), nil
 }
